@@ -22,6 +22,8 @@ def gen_scenario(seed, i):
             f["keep_going"] = rng.choice([0, 1, 3])
         if rng.random() < 0.3:
             f["verbose"] = rng.randint(1, 2)
+        if rng.random() < 0.15:
+            f["compile_commands"] = True
         return f
 
     def narrow():
@@ -115,6 +117,16 @@ def judge(chk, sc, steps):
         fl = inv.get("flags", {})
         ninja_lines = [l for l in sp if l.startswith("N:")]
         chk.count("hit" if step["cache_hit"] else "miss")
+        # --compile-commands: one `ninja -f <file> -t compdb` right after generation, before anything else; it is a query, not a build
+        compdb = [l for l in ninja_lines if l.endswith(" -t compdb")]
+        if inv.get("subcommand") != "clean" and rc in (0, 1) and "error: unknown b" not in step["stderr"] and not inv.get("no_ninja"):
+            if fl.get("compile_commands"):
+                chk.count("compile-commands")
+                if (sp and compdb != ["N:-f build/build-global.ninja -t compdb"]) or (compdb and sp[0] != compdb[0]):
+                    chk.fail_oracle("ninja:compdb", f"--compile-commands: spawns {sp[:3]}, expected the compdb query on the generated file first", {"scenario": sc})
+            elif compdb:
+                chk.fail_oracle("ninja:compdb-unasked", f"compdb run without --compile-commands: {compdb}", {"scenario": sc})
+        ninja_lines = [l for l in ninja_lines if not l.endswith(" -t compdb")]
         # ---- oracle on the implementation
         if inv.get("subcommand") == "clean":
             want = "N:-f build/build-global.ninja" + (" -v" if fl.get("verbose") else "") + " -t " + ("cleandead" if inv.get("unused") else "clean")
